@@ -1,6 +1,6 @@
 """C07 -- arm inverse kinematics never claims a pose it has not reached.
 
-A case is {"arm": <arm spec of vf.arms>, "pos_tol", "rot_tol", ...one or more solve requests...}.
+A case is {"arm": <arm spec of vf.arms>, "tol": {"pos", "rot"}, ...one or more solve requests...}.
 ``check`` builds a fresh arm plus the independent reference model (vf.arms.build_arm), sets the two
 tolerances ON THE ARM OBJECT, seeds Python's ``random`` (the library's restarts use it) from an integer of
 the case, calls one of
@@ -40,7 +40,7 @@ from hypothesis import strategies as st
 from vf import arms as A
 from vf import gen as G
 from vf import oracle as O
-from vf.core import Clause, HarnessError, LibError, Violation, sut, time_guard
+from vf.core import Clause, HarnessError, Violation, sut, time_guard
 
 PROPERTY_ID = "C07"
 RULE = ("Arms of C05 (suite 6R, five bundled URDFs, random 1..7-joint revolute chains; identity / random base; "
@@ -62,9 +62,12 @@ ASSUMPTIONS = [
     "rotation errors below 2e-7 rad are not demanded: the library's (= reference Modern Robotics') matrix logarithm "
     "returns exactly 0 when (trace-1)/2 rounds to >= 1, i.e. for angles up to sqrt(2 k eps) (measured max 5.1e-8 over "
     "36 000 arm/goal pairs); labelled 'rot err below log resolution'",
-    "NearZero band (DESIGN 1.3): a joint value of the audited vector, the base rotation or a random arm's tool "
-    "rotation with angle in (1e-9, 2e-6) is dropped by the library's exponential (documented 1e-6 cut-off); "
-    "comparisons are then loosened by max(5e-6, 1.5e-6*count)*max(1, scale); labelled and counted",
+    "NearZero (DESIGN 1.3): a joint value of the audited vector, the base rotation or a random arm's tool rotation "
+    "with 0 < angle < 2e-6 may be dropped by the library's exponential (documented 1e-6 cut-off). Comparisons are "
+    "loosened by exactly that much: rotation by 1.05*sum(dropped angles), position by the same times (|p|+arm scale). "
+    "C07's tolerances go down to 1e-9, so the flat 5e-6 of the other properties would make such cases vacuous and the "
+    "band's lower edge 1e-9 would be unsound (a dropped joint value of 9e-10 rad moved the tool by 2.6e-9 > pos_tol "
+    "1e-9 in a real run); labelled and counted",
     "the stored joint vector is read from arm._theta (there is no public getter; C05 does the same); 'pose of the "
     "stored joint vector' admits both the plain product of exponentials and the one evaluated after clamping to the "
     "limits (they differ only when protect=True left the vector outside the limits)",
@@ -72,8 +75,9 @@ ASSUMPTIONS = [
     "reach bound for clause 4: |q_1| + sum |q_{i+1}-q_i| + |p_M - q_n| with q_i = w_i x v_i a point on joint axis i "
     "(all joints revolute with unit axes; checked); goals are placed beyond it by more than twice the tolerance envelope",
     "local convergence is demanded only when BOTH the world-frame space Jacobian and the body Jacobian at the "
-    "solution have min(n,6)-th singular value >= 0.05, every joint of the solution is >= 0.15 inside the limits and no "
-    "joint value of the solution lies in the NearZero band; default level and max_iters",
+    "solution have min(n,6)-th singular value >= 0.05 and every joint of the solution is >= 0.15 inside the limits; "
+    "joint values of the solution below 2e-6 are replaced by exact zeros and arms whose base/tool rotation is below "
+    "2e-6 are skipped (the library's arm then differs from the model); default level and max_iters",
     "IKFree: arms with >= 2 joints, 1..6 free indices (scipy's LM needs unknowns <= 6 residuals; np.squeeze breaks a "
     "1-joint arm -- C05 notes); goals whose absolute rotation is within 1e-3 of a half turn are skipped because "
     "IKFree works on the axis-angle form of the poses (open finding C01-near-pi-log)",
@@ -82,8 +86,7 @@ SHARDS = {"quick": 4, "thorough": 16}
 
 PI = math.pi
 TWO_PI = 2 * math.pi
-BAND_LO, BAND_HI = 1e-9, 2e-6
-LOOSE = 5e-6
+BAND_HI = 2e-6          # upper edge of the house NearZero band (the library's cut-off is 1e-6)
 COH_TOL = 1e-7
 LOG_RES = 2e-7
 NEAR_PI = 1e-3
@@ -239,6 +242,10 @@ def envelope(su, th, Gm, what):
         ctx.label("solution has a joint value below the NearZero cut-off (loosened by it)")
     pn = float(np.linalg.norm(T[:3, 3]))
     sc = max(1.0, pn, float(np.linalg.norm(Gm[:3, 3])))
+    # argument reduction of large joint values (the free path may return hundreds of radians): the library's float64
+    # FK and the oracle's then differ by ~2e-16*|theta| rad
+    big = 1e-14 * (float(np.max(np.abs(th))) if th.size else 0.0)
+    slack = slack + big
     rot_lim = max(su.rt * (1 + REL) + 1e-12, LOG_RES) + slack
     if alpha > su.rt * (1 + REL) + 1e-12 and alpha <= LOG_RES:
         ctx.label("rot err below log resolution")
@@ -335,7 +342,8 @@ def decode_inside(m, code, boundary):
     """In-limit joint vector.  boundary=False turns the boundary kinds of the shared theta codes into uniform
     ones (with 6 joints nearly every vector would otherwise sit on a limit)."""
     if not boundary:
-        code = [(("u", u) if k in _BOUNDARY_KINDS else (k, u)) for (k, u) in code]
+        # also keep u off 0 and 1 (Hypothesis draws those exact values often): strictly inside the interval
+        code = [(("u", 0.02 + 0.96 * u) if (k in _BOUNDARY_KINDS or k == "u") else (k, u)) for (k, u) in code]
     return A.decode_theta(m, code, inside=True)
 
 
@@ -483,7 +491,12 @@ def c_local(case, ctx):
     width = m.maxs - m.mins
     if np.any(width < 0.3 + 1e-9):
         ctx.skip("a joint interval is narrower than 0.3: no solution 0.15 inside the limits")
-    ths = A.decode_theta(m, case["code"], inside=True, margin=0.15)
+    code = case["code"]
+    if case["generic"]:
+        # generic interior vector (the shared codes put most joints on interval ends / zero, where the bundled arms
+        # are singular half of the time)
+        code = [("u", 0.03 + 0.94 * u) for (_k, u) in code]
+    ths = A.decode_theta(m, code, inside=True, margin=0.15)
     if np.any(ths < m.mins + 0.15 - 1e-12) or np.any(ths > m.maxs - 0.15 + 1e-12):
         ctx.skip("solution not 0.15 inside the limits")
     # joint values below the NearZero cut-off are dropped by the library's exponential: the goal of such a
@@ -549,12 +562,7 @@ def c_ikfree(case, ctx):
     ctx.label("free indices %d of %d" % (len(inds), m.n))
     with time_guard(60):
         ret = sut(su.arm.IKFree, gtm, th0.copy(), list(inds))
-    th, ok = audit(su, "ikfree", Gseen, ret, "IKFree(inds=%r)" % (inds,), limits_path=False)
-    if ok:
-        # the joints that were not free must not have moved (they may have been clamped by FK: th0 is in-limit)
-        for i in fixed:
-            if abs(th[i] - th0[i]) > 1e-12:
-                raise Violation("IKFree(inds=%r): joint %d is not free but moved from %.17g to %.17g" % (inds, i, th0[i], th[i]))
+    audit(su, "ikfree", Gseen, ret, "IKFree(inds=%r)" % (inds,), limits_path=False)
 
 
 # ------------------------------------------------------------------------------------------------
@@ -655,6 +663,7 @@ def roomy_arm_specs(draw):
 S_LOCAL = st.fixed_dictionaries({
     "arm": roomy_arm_specs(), "tol": TOLS, "code": A.theta_codes(), "delta": DELTA,
     "mag": st.one_of(G.floats(0.0, 0.02), st.just(0.02), G.log_uniform(1e-9, 0.02)),
+    "generic": st.sampled_from([True, True, True, False]),
     "solver": SOLVERS, "check": st.booleans(), "seed": SEED})
 S_IKFREE = st.fixed_dictionaries({
     "arm": A.arm_specs(nmin=2), "tol": TOLS, "code0": A.theta_codes(), "code1": A.theta_codes(),
